@@ -4,6 +4,7 @@ import JT.Props.C02
 import JT.Proof.AttStream
 import JT.Proof.FrameChecked
 import JT.Proof.Codec2
+import JT.Proof.UnescChecked
 /-!
 # C03 — decoders are total functions of their input
 
@@ -75,5 +76,28 @@ theorem more_decoders_no_panic (b : Bytes) :
    Codec2.parseP0x9206_ne_panic b, Codec2.parseT0x1205_ne_panic b, Codec2.parseP0x9205_ne_panic b,
    Codec2.parseP0x9202_ne_panic b, Codec2.parseP0x8801_ne_panic b, Codec2.parseT0x1005_ne_panic b,
    fun dl => Codec2.parseP0x9208_ne_panic dl b⟩
+
+/-- **`unescape` never leaves the frame**: the loop written with Go's index arithmetic (`data[i]`, `data[i+1]` after
+`i++`, `data[index : i-1]`, `data[index : len-1]`) and checked accesses computes exactly the list-recursive model
+`Frame.unescape`, on every byte string — so no index is ever out of range, whatever a peer sends. -/
+theorem unescape_accesses_in_range (d : Bytes) :
+    Frame.unescapeC d = .ok (Frame.unescape d) ∧ Frame.unescapeC d ≠ .panic :=
+  ⟨Frame.unescapeC_eq d, Frame.unescapeC_ne_panic d⟩
+
+/-- the whole of `JTMessage.Decode` with checked accesses: un-escaping, checksum, header, body -/
+def decodeC (f : Bytes) : Res Frame.Msg :=
+  match Frame.unescapeC f with
+  | .panic => .panic
+  | .err => .err
+  | .ok none => .err
+  | .ok (some p) => if xorAll p ≠ 0 then .err else Frame.decodePlainC p
+
+/-- **`JTMessage.Decode`, every access checked, is the decoder of C01/C02** (and so never panics) -/
+theorem decode_accesses_in_range (f : Bytes) : decodeC f = Frame.decode f := by
+  unfold decodeC Frame.decode
+  rw [Frame.unescapeC_eq]
+  cases Frame.unescape f with
+  | none => rfl
+  | some p => simp only [Frame.decodePlainC_eq]
 
 end JT.C03
